@@ -1023,3 +1023,7 @@ mod tests {
         assert_eq!(m.apply_pt(&pt3(1.0, 1.0, 0.6)), pt3(620.0, 470.0, 0.6));
     }
 }
+
+#[cfg(kani)]
+#[path = "/verif/kani/mat.rs"]
+pub(crate) mod verif_kani;
